@@ -142,6 +142,13 @@ func checkC19(r *run, c *VLACase) (CaseInfo, error) {
 	}
 	ci.Nontrivial = distinctMasks || inactive || len(c.Layers) > 4 || bigRate
 
+	if !c.HasRes && c.RID%2 == 1 {
+		// resolution fields left over in the value (decoded earlier with resolutions, flag cleared since): not encoded
+		for i := range v.ActiveSpatialLayer {
+			v.ActiveSpatialLayer[i].Width, v.ActiveSpatialLayer[i].Height, v.ActiveSpatialLayer[i].Framerate = 640+i, 360+i, 30
+		}
+		ci.class("stale-resolution-fields-with-flag-clear")
+	}
 	// bitrates travel as LEB128; bytes the LEB128 writer hands out are the caller's and may be rewritten by it
 	for _, l := range v.ActiveSpatialLayer {
 		for _, b := range l.TargetBitrates {
@@ -495,7 +502,7 @@ func enumVLAMasks(r *run) bool {
 	return true
 }
 
-const ruleC19 = "valid VLAs: rapid draws 1-4 streams, RID, a slot assignment (equal masks / inactive streams / arbitrary), 1-4 temporal layers with bitrates across all LEB128 size classes (up to 2^32-1, occasionally up to 2^56-1: eight bytes), optional resolution (1-65536)^2 and frame rate, one case in 20 a maximal allocation (3-4 streams, nearly all 16 slots, four temporal layers with five-byte bitrates, resolutions: encodings of 256-407 bytes); every 16^n-1 slot assignment (69904 allocations) is also enumerated in both tiers, partitioned across the shards. Oracle (the caller first overwrites what the LEB128 writer returns for each bitrate): Marshal equals an independent encoder of the video-layers-allocation00 layout byte for byte, a second Marshal after the caller overwrote the first result gives the same bytes, Unmarshal consumes everything and yields an equal VLA, also into a receiver that decoded another allocation before (compared with a fresh receiver on every field, resolution fields included); VLAs with exactly one injected defect (boundary values, and wide out-of-range values incl. ones congruent to valid values modulo 2^8/2^16/2^32) must be rejected without panicking; hostile byte strings (random, mutated valid encodings, with earlier decode) must not panic and must report 0<=n<=len, and accepted ones must agree with the reference decoder and decode the same into a used and a fresh receiver. Non-trivial = differing masks, an inactive stream, >4 layers or a bitrate >=128 (valid), every invalid/hostile case; distinct = FNV-64 of the JSON case"
+const ruleC19 = "valid VLAs: rapid draws 1-4 streams, RID, a slot assignment (equal masks / inactive streams / arbitrary), 1-4 temporal layers with bitrates across all LEB128 size classes (up to 2^32-1, occasionally up to 2^56-1: eight bytes), optional resolution (1-65536)^2 and frame rate (without the flag the fields are zero or hold left-over values, which must not be encoded), one case in 20 a maximal allocation (3-4 streams, nearly all 16 slots, four temporal layers with five-byte bitrates, resolutions: encodings of 256-407 bytes); every 16^n-1 slot assignment (69904 allocations) is also enumerated in both tiers, partitioned across the shards. Oracle (the caller first overwrites what the LEB128 writer returns for each bitrate): Marshal equals an independent encoder of the video-layers-allocation00 layout byte for byte, a second Marshal after the caller overwrote the first result gives the same bytes, Unmarshal consumes everything and yields an equal VLA, also into a receiver that decoded another allocation before (compared with a fresh receiver on every field, resolution fields included); VLAs with exactly one injected defect (boundary values, and wide out-of-range values incl. ones congruent to valid values modulo 2^8/2^16/2^32) must be rejected without panicking; hostile byte strings (random, mutated valid encodings, with earlier decode) must not panic and must report 0<=n<=len, and accepted ones must agree with the reference decoder and decode the same into a used and a fresh receiver. Non-trivial = differing masks, an inactive stream, >4 layers or a bitrate >=128 (valid), every invalid/hostile case; distinct = FNV-64 of the JSON case"
 
 func TestC19(t *testing.T) {
 	r := begin(t, "C19", "exploration", ruleC19)
